@@ -205,7 +205,7 @@ func normalise(cfg Config) (map[string][]byte, []string, *packages.Package) {
 	lib := func(ps []*packages.Package) []*packages.Package {
 		var out []*packages.Package
 		for _, p := range ps {
-			if p.PkgPath == ModPath || p.PkgPath == ModPath+"/css" {
+			if p.PkgPath == ModPath || p.PkgPath == ModPath+"/css" || strings.HasPrefix(p.PkgPath, ModPath+"/cmd/") {
 				out = append(out, p)
 			}
 		}
